@@ -128,17 +128,29 @@ def reRequest (t : Transfer) : PMsg :=
   | .ok m => ⟨m.h, m.body, false, frame⟩
   | _ => ⟨{ t.hdr with id := 0, attr := 0, version := 0, frag := 0, encrypt := 0, bodyLen := 0, bcd := [], serial := 0, sum := 0, no := 0 }, [], false, frame⟩
 
-/-- `parse(data)` at time `now`: delivered messages (unpacked ++ completed ++ re-requests), error flag, panic flag -/
+/-- `deleteTimeoutPackage`: transfers that began 60 s ago or earlier are dropped -/
+def expire (now : Nat) (recs : List Transfer) : List Transfer :=
+  recs.filter (fun t => ¬ (t.create + 60000 ≤ now))
+
+/-- transfers for which nothing has arrived (and nothing was re-requested) for 5 s -/
+def stale (now : Nat) (recs : List Transfer) : List Transfer :=
+  recs.filter (fun t => t.update + 5000 ≤ now)
+
+/-- a re-request counts as activity: `v.updateTime = time.Now()` -/
+def touch (now : Nat) (recs : List Transfer) : List Transfer :=
+  recs.map (fun t => if t.update + 5000 ≤ now then { t with update := now } else t)
+
+/-- the timer part of `parse`: expiry, then re-requests -/
+def tick (now : Nat) (recs : List Transfer) : List Transfer × List PMsg :=
+  let r2 := expire now recs
+  (touch now r2, (stale now r2).map reRequest)
+
+/-- `parse(data)` at time `now`: delivered messages (unpacked ++ completed), re-requests, error flag, panic flag -/
 def parse (now : Nat) (st : PState) (data : Bytes) : PState × List PMsg × List PMsg × Bool × Bool :=
   let (ms, err, hist') := unpack st.hist data
   let (recs1, seen, comps, pn) := completeAll now st.recs ms [] []
   if pn then (⟨hist', recs1⟩, [], [], err, true) else
-  -- deleteTimeoutPackage
-  let recs2 := recs1.filter (fun t => ¬ (t.create + 60000 ≤ now))
-  -- supplementarySubPackage
-  let stale := recs2.filter (fun t => t.update + 5000 ≤ now)
-  let reqs := stale.map reRequest
-  let recs3 := recs2.map (fun t => if t.update + 5000 ≤ now then { t with update := now } else t)
+  let (recs3, reqs) := tick now recs1
   (⟨hist', recs3⟩, seen ++ comps, reqs, err, false)
 
 end JT.Parse
